@@ -485,6 +485,17 @@ def replay(path):
                 return 1
             print("not reproduced")
             return 0
+        if rp["kind"] == "wire":
+            print("recorded: request stream written in pieces ending at offsets %s; observed %s" % (rp["cuts"], json.dumps(rp["observed"])[:1500]))
+            print("re-running the transport part of C19 (the binary is rebuilt from the tree)")
+            c = Ctx("C19", "quick", 1)
+            c.build()
+            front.wire_check(c)
+            if c.violations:
+                print("VIOLATION property=%s replay=%s" % (prop, path))
+                return 1
+            print("not reproduced")
+            return 0
         if rp["kind"] == "lex":
             hits = front.confirm_lex(ctx, rp)
             print(json.dumps(rp.get("observed_again"), indent=1)[:3000])
